@@ -5,6 +5,7 @@
    metadata the main run left behind.
    result code: 0 agree & spec, 1 differ & spec, 2 differ & not spec, 3 agree & not spec *)
 From Verif Require Export Lib.Bytes C08.Model C08.Spec.
+From Verif Require C08.TagModel.
 From VerifGen Require Import Consts.
 Open Scope Z_scope.
 
@@ -53,7 +54,14 @@ Inductive case :=
    UnmarshalBinary round trip (what every data node's client cache actually holds): routing
    reads only these fields, so the round trip must be the identity on them (the model of the
    round trip is the identity) *)
-| CRt (before after : meta).
+| CRt (before after : meta)
+(* one series (measurement, tag set with distinct keys) written as a line of line protocol with
+   the tags in several orders; each line went through the real parser
+   (models.ParsePointsWithPrecision) and the key of the resulting point was recorded.
+   agree: the harness wrote the text the model renders, and the model of scanKey (C12) returns
+   the same key; spec: every order yields THE canonical key (escaped measurement, tags sorted
+   by escaped key), hence the same hash and the same shard *)
+| CKey (meas : bytes) (ts : list (bytes * bytes)) (obs : list TagModel.key_obs).
 
 (* ---------- executable spec on one observed run (compare Spec.v) ---------- *)
 Definition spec_run (m0 : meta) (rp : policy) (pts : list point) (r : run) : bool :=
@@ -113,4 +121,5 @@ Definition check_case (c : case) : N :=
       let rs := map (check_run (run_meta m0 main) rp pts) subs in
       code (fst rm && forallb fst rs) (snd rm && forallb snd rs)
   | CRt before after => code (meta_eqb before after) (meta_eqb before after)
+  | CKey meas ts obs => code (forallb (TagModel.key_obs_agree meas ts) obs) (forallb (TagModel.key_obs_spec meas ts) obs)
   end.
